@@ -325,6 +325,17 @@ func TestProperty(t *testing.T) {
 	plan := harness.Plan{Prop: "C14", Suppress: findings.Suppressor("C14"), Checks: []harness.Check{
 		{Name: "line_endings", Quick: 60000, Thorough: 800000, Gen: doc, Prop: propEndings,
 			Rule: "G1/G2/G3 inputs with every CR removed; LF(HTML(crlf(x))) == LF(HTML(x)) and LF(HTML(cr(x))) == LF(HTML(x)) byte for byte under the default renderer; non-trivial = >= 1 line ending and a code block, hard break, HTML block, multi-line inline construct or container"},
+		{Name: "line_endings_at_limits", Quick: 4000, Thorough: 60000, Gen: func(t *rapid.T) harness.Case {
+			d := gen.LongLabelDoc().Draw(t, "in")
+			switch rapid.IntRange(0, 2).Draw(t, "container") {
+			case 1:
+				d = append([]byte("> "), bytes.ReplaceAll(d, []byte("\n"), []byte("\n> "))...)
+			case 2:
+				d = append([]byte("- "), bytes.ReplaceAll(d, []byte("\n"), []byte("\n  "))...)
+			}
+			return harness.Case{In: d}
+		}, Prop: propEndings,
+			Rule: "a definition and a use of a label of 985-1003 characters (one in three exactly 997-1000) written on 1-5 lines, at top level, in a quote or in a list item: a line ending inside a label is one line ending however it is spelled, so a count-based limit must not tell LF from CRLF; the line_endings relation"},
 		{Name: "padding", Quick: 60000, Thorough: 800000, Gen: genPad, Prop: propPad,
 			Rule: "any G1/G2/G3 input x pad of 1-5 blank lines (spaces/tabs + LF|CRLF|CR, built so that no CR fuses with a following LF); block lists structurally equal with offsets shifted by len(pad) and StartLine by the pad's line count; non-trivial as for line_endings"},
 		{Name: "final_newline", Quick: 60000, Thorough: 800000, Gen: func(t *rapid.T) harness.Case {
